@@ -735,10 +735,18 @@ impl Conjunction for BoundedVariantRange {
     type Output = Self;
 
     fn conjunction(self, rhs: Self) -> Self::Output {
-        match NaturalRange::by_bound_with(self.into(), rhs.into(), ops::conjunction) {
-            Variance::Variant(Bounded(range)) => range,
-            _ => unreachable!(),
-        }
+        // An unbounded lower bound is zero and so is the identity of the sum of lower bounds. An
+        // unbounded upper bound is absorbing in the sum of upper bounds. The sum of two variant
+        // ranges is always a variant range, because at least one of its bounds is non-zero and
+        // its bounds cannot be equal.
+        let lower = ops::conjunction(self.lower().into_usize(), rhs.lower().into_usize());
+        let upper = self
+            .upper()
+            .into_usize()
+            .zip(rhs.upper().into_usize())
+            .map(|(lhs, rhs)| ops::conjunction(lhs, rhs));
+        BoundedVariantRange::try_from_lower_and_upper(lower, upper)
+            .expect("conjunction of variant ranges is not a variant range")
     }
 }
 
